@@ -1,0 +1,341 @@
+//go:build verif
+
+// Machine-checked contracts for package helper (read by /verif/govc; comment-only, compiled to nothing).
+// Syntax: Gobra-style "//@" clauses keyed by function, loops (loop#i) and function literals (lit#i) in
+// source order.  len(c) is the complete (final) length of the history of stream c, c[k] its k-th value,
+// consumed(c)/sent(c)/closed(c) the reader cursor, writer cursor and close flag.
+
+package helper
+
+//@ func Pipe
+//@ requires !closed(t)
+//@ ensures[C16,C03] consumed(f) == len(f) && closed(t)
+//@ ensures[C16,C02] len(t) == old(sent(t)) + len(f) - old(consumed(f))
+//@ ensures[C16,C01] forall k :: 0 <= k && k < len(f)-old(consumed(f)) ==> t[old(sent(t))+k] == f[old(consumed(f))+k]
+//@ loop#0 invariant !closed(t) && old(consumed(f)) <= consumed(f) && consumed(f) <= len(f)
+//@ loop#0 invariant sent(t) - old(sent(t)) == consumed(f) - old(consumed(f))
+//@ loop#0 invariant forall k :: 0 <= k && k < consumed(f)-old(consumed(f)) ==> t[old(sent(t))+k] == f[old(consumed(f))+k]
+
+//@ func Drain
+//@ ensures[C16,C03] consumed(c) == len(c)
+//@ loop#0 invariant consumed(c) <= len(c)
+
+//@ func Skip
+//@ requires count >= 0 && consumed(c) == 0
+//@ ensures[C16,C02] len(result) == max(0, len(c)-count)
+//@ ensures[C16,C01] forall k :: 0 <= k && k < len(result) ==> result[k] == c[k+count]
+//@ ensures[C16,C03] consumed(c) == len(c) && closed(result)
+//@ loop#0 invariant 0 <= i && i <= count && consumed(c) == i && sent(result) == 0 && !closed(result)
+
+//@ func Shift
+//@ requires count >= 0 && consumed(c) == 0
+//@ ensures[C16,C05] len(result) == len(c) + count
+//@ ensures[C16,C05] forall k :: 0 <= k && k < count ==> result[k] == fill
+//@ ensures[C16,C01] forall k :: count <= k && k < len(result) ==> result[k] == c[k-count]
+//@ ensures[C16,C03] consumed(c) == len(c) && closed(result)
+//@ loop#0 invariant 0 <= i && i <= count && sent(result) == i && consumed(c) == 0 && !closed(result)
+//@ loop#0 invariant forall k :: 0 <= k && k < i ==> result[k] == fill
+
+//@ func Head
+//@ requires count >= 0
+//@ borrows c
+//@ ensures[C16,C02] len(result) == min(count, len(c)-old(consumed(c))) && closed(result)
+//@ ensures[C16,C01] forall k :: 0 <= k && k < len(result) ==> result[k] == c[old(consumed(c))+k]
+//@ ensures[C16,C03] consumed(c) == old(consumed(c)) + len(result)
+//@ loop#0 invariant 0 <= i && i <= count && consumed(c) == old(consumed(c)) + i && sent(result) == i && !closed(result)
+//@ loop#0 invariant forall k :: 0 <= k && k < i ==> result[k] == c[old(consumed(c))+k]
+
+//@ func First
+//@ requires count >= 0 && consumed(c) == 0
+//@ ensures[C16] len(result) == min(count, len(c))
+//@ ensures[C16] forall k :: 0 <= k && k < len(result) ==> result[k] == c[k]
+//@ ensures[C16,C03] consumed(c) == len(c) && closed(result)
+//@ loop#0 invariant 0 <= i && i <= count && consumed(c) == i && sent(result) == i && !closed(result)
+//@ loop#0 invariant forall k :: 0 <= k && k < i ==> result[k] == c[k]
+
+//@ func Buffered
+//@ requires size >= 0 && consumed(c) == 0
+//@ ensures[C16,C02] len(result) == len(c)
+//@ ensures[C16,C01] forall k :: 0 <= k && k < len(c) ==> result[k] == c[k]
+//@ ensures[C16,C03] consumed(c) == len(c) && closed(result)
+
+//@ func Waitable
+//@ requires consumed(c) == 0
+//@ ensures[C16] len(result) == len(c)
+//@ ensures[C16] forall k :: 0 <= k && k < len(c) ==> result[k] == c[k]
+//@ ensures[C16,C03] consumed(c) == len(c) && closed(result)
+//@ loop#0 invariant consumed(c) == sent(result) && !closed(result)
+//@ loop#0 invariant forall k :: 0 <= k && k < sent(result) ==> result[k] == c[k]
+
+//@ func Map
+//@ requires consumed(c) == 0 && f.ncalls == 0
+//@ ensures[C16,C02] len(result) == len(c) && f.ncalls == len(c)
+//@ ensures[C16,C01] forall k :: 0 <= k && k < len(c) ==> f.arg0(k) == c[k] && result[k] == f.ret(k)
+//@ ensures[C16,C03] consumed(c) == len(c) && closed(result)
+//@ loop#0 invariant consumed(c) == sent(mc) && f.ncalls == sent(mc) && !closed(mc)
+//@ loop#0 invariant forall k :: 0 <= k && k < sent(mc) ==> f.arg0(k) == c[k] && mc[k] == f.ret(k)
+
+//@ func Apply
+//@ requires consumed(c) == 0 && f.ncalls == 0
+//@ ensures[C16,C02] len(result) == len(c) && f.ncalls == len(c)
+//@ ensures[C16,C01] forall k :: 0 <= k && k < len(c) ==> f.arg0(k) == c[k] && result[k] == f.ret(k)
+//@ ensures[C16,C03] consumed(c) == len(c) && closed(result)
+//@ loop#0 invariant consumed(c) == sent(ac) && f.ncalls == sent(ac) && !closed(ac)
+//@ loop#0 invariant forall k :: 0 <= k && k < sent(ac) ==> f.arg0(k) == c[k] && ac[k] == f.ret(k)
+
+//@ func Operate
+//@ requires consumed(ac) == 0 && consumed(bc) == 0 && o.ncalls == 0
+//@ ensures[C16,C02] len(result) == min(len(ac), len(bc)) && o.ncalls == len(result)
+//@ ensures[C16,C01] forall k :: 0 <= k && k < len(result) ==> o.arg0(k) == ac[k] && o.arg1(k) == bc[k] && result[k] == o.ret(k)
+//@ ensures[C16,C03] consumed(ac) == len(ac) && consumed(bc) == len(bc) && closed(result)
+//@ loop#0 invariant consumed(ac) == sent(oc) && consumed(bc) == sent(oc) && o.ncalls == sent(oc) && !closed(oc)
+//@ loop#0 invariant forall k :: 0 <= k && k < sent(oc) ==> o.arg0(k) == ac[k] && o.arg1(k) == bc[k] && oc[k] == o.ret(k)
+
+//@ func Operate3
+//@ requires consumed(ac) == 0 && consumed(bc) == 0 && consumed(cc) == 0 && o.ncalls == 0
+//@ ensures[C16,C02] len(result) == min(len(ac), min(len(bc), len(cc))) && o.ncalls == len(result)
+//@ ensures[C16,C01] forall k :: 0 <= k && k < len(result) ==> o.arg0(k) == ac[k] && o.arg1(k) == bc[k] && o.arg2(k) == cc[k] && result[k] == o.ret(k)
+//@ ensures[C16,C03] consumed(ac) == len(ac) && consumed(bc) == len(bc) && consumed(cc) == len(cc) && closed(result)
+//@ loop#0 invariant consumed(ac) == sent(rc) && consumed(bc) == sent(rc) && consumed(cc) == sent(rc) && o.ncalls == sent(rc) && !closed(rc)
+//@ loop#0 invariant forall k :: 0 <= k && k < sent(rc) ==> o.arg0(k) == ac[k] && o.arg1(k) == bc[k] && o.arg2(k) == cc[k] && rc[k] == o.ret(k)
+
+// ---- Ring: bounded FIFO. Abstract view: rview(r,0..rsize(r)-1), oldest first (C17, "guarantees": proved
+// on the bodies, not exported to callers).  Callers get the quantifier-friendly representation-level "ensures".
+//@ macro rwf(r) = len(r.buffer) >= 1 && 0 <= r.begin && r.begin < len(r.buffer) && 0 <= r.end && r.end < len(r.buffer) && (r.empty ==> r.begin == r.end)
+//@ macro rsize(r) = r.empty ? 0 : (r.end > r.begin ? r.end - r.begin : r.end - r.begin + len(r.buffer))
+//@ macro rview(r, j) = r.buffer[(r.begin + j) % len(r.buffer)]
+//@ macro rnext(r, i) = i + 1 == len(r.buffer) ? 0 : i + 1
+//@ macro rlpos(r, p) = p >= r.begin ? p - r.begin : p - r.begin + len(r.buffer)
+
+//@ func NewRing
+//@ requires size >= 1
+//@ ensures[C17] rwf(result) && rsize(result) == 0 && len(result.buffer) == size && result.empty
+
+//@ func Ring.Put
+//@ requires rwf(r)
+//@ modifies r
+//@ ensures[C17] rwf(r) && len(r.buffer) == old(len(r.buffer)) && !r.empty
+//@ ensures[C17] r.end == old(rnext(r, r.end)) && result == old(r.buffer[r.end])
+//@ ensures[C17] r.begin == (old(!r.empty && r.end == r.begin) ? old(rnext(r, r.begin)) : old(r.begin))
+//@ ensures[C17] forall p :: 0 <= p && p < len(r.buffer) ==> r.buffer[p] == (p == old(r.end) ? t : old(r.buffer[p]))
+//@ guarantees[C17] old(rsize(r)) == len(r.buffer) ==> result == old(rview(r,0)) && rsize(r) == len(r.buffer)
+//@ guarantees[C17] old(rsize(r)) == len(r.buffer) ==> (forall j :: 0 <= j && j < len(r.buffer)-1 ==> rview(r,j) == old(rview(r,j+1))) && rview(r, len(r.buffer)-1) == t
+//@ guarantees[C17] old(rsize(r)) < len(r.buffer) ==> rsize(r) == old(rsize(r)) + 1
+//@ guarantees[C17] old(rsize(r)) < len(r.buffer) ==> (forall j :: 0 <= j && j < old(rsize(r)) ==> rview(r,j) == old(rview(r,j))) && rview(r, old(rsize(r))) == t
+
+//@ func Ring.Get
+//@ requires rwf(r)
+//@ modifies r
+//@ ensures[C17] rwf(r) && len(r.buffer) == old(len(r.buffer)) && r.end == old(r.end)
+//@ ensures[C17] forall p :: 0 <= p && p < len(r.buffer) ==> r.buffer[p] == old(r.buffer[p])
+//@ ensures[C17] old(r.empty) ==> !result1 && r.empty && r.begin == old(r.begin)
+//@ ensures[C17] !old(r.empty) ==> result1 && result0 == old(r.buffer[r.begin]) && r.begin == old(rnext(r, r.begin)) && r.empty == (r.begin == r.end)
+//@ guarantees[C17] old(rsize(r)) == 0 ==> !result1 && rsize(r) == 0
+//@ guarantees[C17] old(rsize(r)) > 0 ==> result1 && result0 == old(rview(r,0)) && rsize(r) == old(rsize(r)) - 1
+//@ guarantees[C17] old(rsize(r)) > 0 ==> (forall j :: 0 <= j && j < rsize(r) ==> rview(r,j) == old(rview(r,j+1)))
+
+//@ func Ring.At
+//@ requires rwf(r) && 0 <= index && index < len(r.buffer)
+//@ ensures[C17] result == r.buffer[r.begin + index < len(r.buffer) ? r.begin + index : r.begin + index - len(r.buffer)]
+//@ guarantees[C17] result == rview(r, index)
+
+//@ func Ring.IsEmpty
+//@ requires rwf(r)
+//@ ensures[C17] result == r.empty
+//@ guarantees[C17] result == (rsize(r) == 0)
+
+//@ func Ring.IsFull
+//@ requires rwf(r)
+//@ ensures[C17] result == (!r.empty && r.end == r.begin)
+//@ guarantees[C17] result == (rsize(r) == len(r.buffer))
+
+//@ func MapWithPrevious
+//@ requires consumed(c) == 0 && f.ncalls == 0
+//@ ensures[C16,C02] len(result) == len(c) && f.ncalls == len(c)
+//@ ensures[C16,C01] forall k :: 0 <= k && k < len(c) ==> f.arg1(k) == c[k] && result[k] == f.ret(k)
+//@ ensures[C16,C01] forall k :: 0 <= k && k < len(c) ==> f.arg0(k) == (k == 0 ? previous : f.ret(k-1))
+//@ ensures[C16,C03] consumed(c) == len(c) && closed(result)
+//@ loop#0 invariant consumed(c) == sent(mc) && f.ncalls == sent(mc) && !closed(mc)
+//@ loop#0 invariant previous == (sent(mc) == 0 ? old(previous) : f.ret(sent(mc)-1))
+//@ loop#0 invariant forall k :: 0 <= k && k < sent(mc) ==> f.arg1(k) == c[k] && mc[k] == f.ret(k) && f.arg0(k) == (k == 0 ? old(previous) : f.ret(k-1))
+
+//@ func Count
+//@ requires consumed(other) == 0
+//@ ensures[C16] len(result) == len(other)
+//@ ensures[C16] forall k :: 0 <= k && k < len(result) ==> result[k] == from + k
+//@ ensures[C16,C03] consumed(other) == len(other) && closed(result)
+//@ loop#0 invariant consumed(other) == sent(c) && i == from + sent(c) && !closed(c)
+//@ loop#0 invariant forall k :: 0 <= k && k < sent(c) ==> c[k] == from + k
+
+//@ func SliceToChan
+//@ ensures[C16] len(result) == len(slice) && closed(result)
+//@ ensures[C16] forall k :: 0 <= k && k < len(slice) ==> result[k] == slice[k]
+//@ loop#0 invariant sent(c) == idx0 && !closed(c)
+//@ loop#0 invariant forall k :: 0 <= k && k < idx0 ==> c[k] == slice[k]
+
+//@ func ChanToSlice
+//@ ensures[C16] len(result) == len(c) - old(consumed(c)) && consumed(c) == len(c)
+//@ ensures[C16] forall k :: 0 <= k && k < len(result) ==> result[k] == c[old(consumed(c)) + k]
+//@ loop#0 invariant len(slice) == consumed(c) - old(consumed(c)) && old(consumed(c)) <= consumed(c)
+//@ loop#0 invariant forall k :: 0 <= k && k < len(slice) ==> slice[k] == c[old(consumed(c)) + k]
+
+// fcount(p,k) = number of the first k calls of p that returned true: the kept element number of input k.
+//@ func Filter
+//@ requires consumed(c) == 0 && p.ncalls == 0
+//@ ensures[C16,C10] p.ncalls == len(c) && len(result) == fcount(p, len(c))
+//@ ensures[C16,C10] forall k :: 0 <= k && k < len(c) ==> p.arg0(k) == c[k] && (p.ret(k) ==> result[fcount(p,k)] == c[k])
+//@ ensures[C16,C03] consumed(c) == len(c) && closed(result)
+//@ loop#0 invariant p.ncalls == consumed(c) && sent(fc) == fcount(p, consumed(c)) && !closed(fc)
+//@ loop#0 invariant forall k :: 0 <= k && k < consumed(c) ==> p.arg0(k) == c[k] && (p.ret(k) ==> fc[fcount(p,k)] == c[k])
+
+//@ func Last
+//@ requires count >= 1 && consumed(c) == 0
+//@ ensures[C16,C10] len(result) == min(count, len(c))
+//@ ensures[C16,C10] forall k :: 0 <= k && k < len(result) ==> result[k] == c[len(c) - len(result) + k]
+//@ ensures[C16,C03] consumed(c) == len(c) && closed(result)
+//@ loop#0 invariant rwf(ring) && len(ring.buffer) == count && rsize(ring) == min(count, consumed(c)) && sent(result) == 0 && !closed(result)
+//@ loop#0 invariant forall p :: 0 <= p && p < count && rlpos(ring, p) < rsize(ring) ==> ring.buffer[p] == c[consumed(c) - rsize(ring) + rlpos(ring, p)]
+//@ loop#1 invariant rwf(ring) && len(ring.buffer) == count && consumed(c) == len(c) && !closed(result)
+//@ loop#1 invariant sent(result) + rsize(ring) == min(count, len(c))
+//@ loop#1 invariant forall p :: 0 <= p && p < count && rlpos(ring, p) < rsize(ring) ==> ring.buffer[p] == c[len(c) - rsize(ring) + rlpos(ring, p)]
+//@ loop#1 invariant forall k :: 0 <= k && k < sent(result) ==> result[k] == c[len(c) - min(count, len(c)) + k]
+
+//@ func Add
+//@ requires consumed(ac) == 0 && consumed(bc) == 0
+//@ ensures[C16,C02] len(result) == min(len(ac), len(bc))
+//@ ensures[C16,C01] forall k :: 0 <= k && k < len(result) ==> result[k] == ac[k] + bc[k]
+//@ ensures[C16,C03] consumed(ac) == len(ac) && consumed(bc) == len(bc) && closed(result)
+
+//@ func Subtract
+//@ requires consumed(ac) == 0 && consumed(bc) == 0
+//@ ensures[C16,C02] len(result) == min(len(ac), len(bc))
+//@ ensures[C16,C01] forall k :: 0 <= k && k < len(result) ==> result[k] == ac[k] - bc[k]
+//@ ensures[C16,C03] consumed(ac) == len(ac) && consumed(bc) == len(bc) && closed(result)
+
+//@ func Multiply
+//@ requires consumed(ac) == 0 && consumed(bc) == 0
+//@ ensures[C16,C02] len(result) == min(len(ac), len(bc))
+//@ ensures[C16,C01] forall k :: 0 <= k && k < len(result) ==> result[k] == ac[k] * bc[k]
+//@ ensures[C16,C03] consumed(ac) == len(ac) && consumed(bc) == len(bc) && closed(result)
+
+//@ func Divide
+//@ requires consumed(ac) == 0 && consumed(bc) == 0
+//@ ensures[C16,C02] len(result) == min(len(ac), len(bc))
+//@ ensures[C16,C01] forall k :: 0 <= k && k < len(result) ==> result[k] == ac[k] / bc[k]
+//@ ensures[C16,C03] consumed(ac) == len(ac) && consumed(bc) == len(bc) && closed(result)
+
+//@ func Abs
+//@ requires consumed(c) == 0
+//@ ensures[C16,C02] len(result) == len(c)
+//@ ensures[C16,C01] forall k :: 0 <= k && k < len(result) ==> result[k] == abs(c[k])
+//@ ensures[C16,C03] consumed(c) == len(c) && closed(result)
+
+//@ func DecrementBy
+//@ requires consumed(c) == 0
+//@ ensures[C16,C02] len(result) == len(c)
+//@ ensures[C16,C01] forall k :: 0 <= k && k < len(result) ==> result[k] == c[k] - d
+//@ ensures[C16,C03] consumed(c) == len(c) && closed(result)
+
+//@ func IncrementBy
+//@ requires consumed(c) == 0
+//@ ensures[C16,C02] len(result) == len(c)
+//@ ensures[C16,C01] forall k :: 0 <= k && k < len(result) ==> result[k] == c[k] + i
+//@ ensures[C16,C03] consumed(c) == len(c) && closed(result)
+
+//@ func MultiplyBy
+//@ requires consumed(c) == 0
+//@ ensures[C16,C02] len(result) == len(c)
+//@ ensures[C16,C01] forall k :: 0 <= k && k < len(result) ==> result[k] == c[k] * m
+//@ ensures[C16,C03] consumed(c) == len(c) && closed(result)
+
+//@ func DivideBy
+//@ requires consumed(c) == 0
+//@ ensures[C16,C02] len(result) == len(c)
+//@ ensures[C16,C01] forall k :: 0 <= k && k < len(result) ==> result[k] == c[k] / d
+//@ ensures[C16,C03] consumed(c) == len(c) && closed(result)
+
+//@ func KeepNegatives
+//@ requires consumed(c) == 0
+//@ ensures[C16,C02] len(result) == len(c)
+//@ ensures[C16,C01] forall k :: 0 <= k && k < len(result) ==> result[k] == (c[k] < 0 ? c[k] : 0)
+//@ ensures[C16,C03] consumed(c) == len(c) && closed(result)
+
+//@ func KeepPositives
+//@ requires consumed(c) == 0
+//@ ensures[C16,C02] len(result) == len(c)
+//@ ensures[C16,C01] forall k :: 0 <= k && k < len(result) ==> result[k] == (c[k] > 0 ? c[k] : 0)
+//@ ensures[C16,C03] consumed(c) == len(c) && closed(result)
+
+//@ func Sign
+//@ requires consumed(c) == 0
+//@ ensures[C16,C02] len(result) == len(c)
+//@ ensures[C16,C01] forall k :: 0 <= k && k < len(result) ==> result[k] == (c[k] > 0 ? 1 : (c[k] < 0 ? 0 - 1 : 0))
+//@ ensures[C16,C03] consumed(c) == len(c) && closed(result)
+
+//@ func Sqrt
+//@ requires consumed(c) == 0
+//@ ensures[C16,C02] len(result) == len(c)
+//@ ensures[C16,C01] forall k :: 0 <= k && k < len(result) ==> result[k] == sqrt(c[k])
+//@ ensures[C16,C03] consumed(c) == len(c) && closed(result)
+
+//@ func Duplicate
+//@ trusted symbolic slice of channels with defer-in-loop: contract assumed (DESIGN 9), checked at runtime in the thorough tier
+//@ requires count >= 1 && consumed(input) == 0
+//@ ensures[C16] len(result) == count
+//@ ensures[C16] forall i :: 0 <= i && i < count ==> len(result[i]) == len(input) && closed(result[i])
+//@ ensures[C16] forall i :: 0 <= i && i < count ==> (forall k :: 0 <= k && k < len(input) ==> result[i][k] == input[k])
+//@ ensures[C16,C03] consumed(input) == len(input)
+
+//@ func Change
+//@ requires before >= 0 && consumed(c) == 0
+//@ ensures[C16,C02] len(result) == max(0, len(c) - before)
+//@ ensures[C16,C01] forall k :: 0 <= k && k < len(result) ==> result[k] == c[k+before] - c[k]
+//@ ensures[C16,C03] consumed(c) == len(c) && closed(result)
+
+//@ func ChangeRatio
+//@ requires before >= 0 && consumed(c) == 0
+//@ ensures[C16,C02] len(result) == max(0, len(c) - before)
+//@ ensures[C16,C01] forall k :: 0 <= k && k < len(result) ==> result[k] == (c[k+before] - c[k]) / c[k]
+//@ ensures[C16,C03] consumed(c) == len(c) && closed(result)
+
+//@ func ChangePercent
+//@ requires before >= 0 && consumed(c) == 0
+//@ ensures[C16,C02] len(result) == max(0, len(c) - before)
+//@ ensures[C16,C01] forall k :: 0 <= k && k < len(result) ==> result[k] == (c[k+before] - c[k]) / c[k] * 100
+//@ ensures[C16,C03] consumed(c) == len(c) && closed(result)
+
+//@ func SyncPeriod
+//@ requires consumed(c) == 0
+//@ ensures[C16,C02] len(result) == max(0, len(c) - max(0, commonPeriod - period))
+//@ ensures[C16,C01] forall k :: 0 <= k && k < len(result) ==> result[k] == c[k + max(0, commonPeriod - period)]
+//@ ensures[C16,C03] closed(result) && (commonPeriod - period > 0 ==> consumed(c) == len(c))
+
+// since(c,k): number of positions since the value last changed (run-length counter)
+//@ func Since
+//@ requires consumed(c) == 0
+//@ ensures[C16,C02] len(result) == len(c)
+//@ ensures[C16,C01] forall k :: 0 <= k && k < len(result) ==> result[k] == since(c, k)
+//@ ensures[C16,C03] consumed(c) == len(c) && closed(result)
+//@ lit#0 invariant calls == 0 ==> first
+//@ lit#0 invariant calls > 0 ==> !first && last == c[calls-1] && count == since(c, calls-1)
+//@ lit#0 yields since(c, calls)
+
+//@ func Seq
+//@ requires increment > 0
+//@ ensures[C16] forall k :: 0 <= k && k < len(result) ==> result[k] == from + k * increment
+//@ ensures[C16] closed(result) && (len(result) == 0 ==> from >= to) && (len(result) > 0 ==> from + (len(result)-1) * increment < to)
+//@ ensures[C16] from + len(result) * increment >= to
+//@ loop#0 invariant i == from + sent(c) * increment && !closed(c) && (sent(c) > 0 ==> from + (sent(c)-1) * increment < to)
+//@ loop#0 invariant forall k :: 0 <= k && k < sent(c) ==> c[k] == from + k * increment
+
+//@ func Echo
+//@ requires last >= 1 && count >= 0 && consumed(input) == 0
+//@ ensures[C16] len(result) == len(input) + count * last
+//@ ensures[C16] forall k :: 0 <= k && k < len(input) ==> result[k] == input[k]
+//@ ensures[C16,C03] consumed(input) == len(input) && closed(result)
+//@ loop#0 invariant rwf(memory) && len(memory.buffer) == last && consumed(input) == sent(output) && !closed(output)
+//@ loop#0 invariant forall k :: 0 <= k && k < sent(output) ==> output[k] == input[k]
+//@ loop#1 invariant 0 <= i && i <= count && rwf(memory) && len(memory.buffer) == last && consumed(input) == len(input) && !closed(output)
+//@ loop#1 invariant sent(output) == len(input) + i * last
+//@ loop#2 invariant 0 <= j && j <= last && 0 <= i && i < count && rwf(memory) && len(memory.buffer) == last && consumed(input) == len(input) && !closed(output)
+//@ loop#2 invariant sent(output) == len(input) + i * last + j
